@@ -9,7 +9,7 @@ OUT=work/seed_regress.txt; : > $OUT
 SEEDS="$*"; [ -z "$SEEDS" ] && SEEDS=$(ls seeded)
 for S in $SEEDS; do
   P=${S%%-*}
-  case $S in C20-2) P=C13;; C20-3) P=C04;; C05-8) P=C08;; C20-9) P=C13;; esac
+  case $S in C20-2) P=C13;; C20-3) P=C04;; C05-8) P=C08;; C05-9) P=C08;; C20-9) P=C13;; esac
   git -C /repo apply /verif/seeded/$S/patch.diff 2>/dev/null || { echo "$S patch-does-not-apply" >> $OUT; continue; }
   R=$(python3 -m vx check $P | tail -1 | sed 's/.*exit=//')
   V=$(python3 - <<PY
